@@ -105,6 +105,13 @@ def cases(tier, seed):
         spec["kind"] = "mixed"
         spec["opts"] = [f"--ff={spec['ff']}"]
         out.append(spec)
+    # chain-topology stressors: several molecules under one chain id (ends visible only through OXT), blank and
+    # recycled chain ids, single-residue chains - complete standard residues throughout
+    nts = 42 if tier == "quick" else 4000
+    for i in range(nts):
+        ff = common.FFS[i % 6]
+        out.append({"kind": "mixed", "w": "topostress", "seed": seed * 7703 + i, "ff": ff,
+                    "opts": [["--clean"], [f"--ff={ff}"], [f"--ff={ff}", "--keep-chain"]][(i // 6) % 3], "p": {}})
     # option lattice on well-formed structures: stage switches x pKa route x drop-water for every force field, other
     # output options sprinkled on top; titratable-rich sequences so that titrated states (ASH, GLH, LYN ...) occur
     rng = random.Random(seed * 5 + 2)
